@@ -5,6 +5,7 @@ package c06
 
 import (
 	"fmt"
+	"strconv"
 	"strings"
 	"time"
 	"unsafe"
@@ -37,6 +38,7 @@ func Run(ctx *common.Ctx) {
 	var keep []slip.List // keeps every array alive so that addresses are never reused
 	vn := func(i int) string { return fmt.Sprintf("lv%d", i) }
 	scripts := removeFamilyScripts()
+	scripts = append(scripts, dupScripts()...)
 	ncases += len(scripts)
 	for k := 0; len(terms) < ncases; k++ {
 		scope := slip.NewScope()
@@ -183,6 +185,11 @@ func Run(ctx *common.Ctx) {
 				var xs, gx []string
 				for i := 0; i < n; i++ {
 					e := fresh()
+					if i > 0 && ctx.Rng.Chance(20) {
+						// an element that occurs already: lists with duplicates for remove-duplicates, member, remove
+						e, _ = strconv.Atoi(xs[ctx.Rng.Intn(i)])
+						ctx.Hist("list with a repeated element")
+					}
 					xs = append(xs, fmt.Sprint(e))
 					gx = append(gx, fmt.Sprint(e))
 				}
@@ -288,7 +295,28 @@ func Run(ctx *common.Ctx) {
 			case x < 94:
 				k := 1 + ctx.Rng.Intn(3)
 				lisp, g = fmt.Sprintf("(setq %s (mapcar (lambda (el) (+ el %d)) %s))", vn(dst), k, vn(src)), fmt.Sprintf("OMapcar %d %d %d", k, src, dst)
-			case x >= 97:
+			case x >= 96 && x < 98:
+				// remove-duplicates / delete-duplicates (RemoveDuplicates embeds DeleteDuplicates), optionally
+				// :from-end, :start, :end (also beyond the length: slip checks no range)
+				fname := "remove-duplicates"
+				if ctx.Rng.Bool() {
+					fname = "delete-duplicates"
+				}
+				opts, gfe, gs, ge := "", "false", 0, "None"
+				if ctx.Rng.Bool() {
+					opts, gfe = " :from-end t", "true"
+				}
+				if ctx.Rng.Chance(35) {
+					gs = ctx.Rng.Intn(lens[src] + 2)
+					opts += fmt.Sprintf(" :start %d", gs)
+				}
+				if ctx.Rng.Chance(35) {
+					e := ctx.Rng.Intn(lens[src] + 2)
+					opts, ge = opts+fmt.Sprintf(" :end %d", e), fmt.Sprintf("(Some %d%%nat)", e)
+				}
+				lisp = fmt.Sprintf("(setq %s (%s %s%s))", vn(dst), fname, vn(src), opts)
+				g = fmt.Sprintf("ORemoveDup %s %d%%nat %s %d %d", gfe, gs, ge, src, dst)
+			case x >= 98:
 				// remove-if / delete-if (RemoveIf embeds DeleteIf) with a predicate, optionally :count and :from-end
 				preds := [][2]string{{"'evenp", "PEven"}, {"'oddp", "POdd"}, {fmt.Sprintf("(lambda (el) (< el %d))", next-3), fmt.Sprintf("(PLess %d)", next-3)}}
 				pr := preds[ctx.Rng.Intn(len(preds))]
@@ -367,7 +395,7 @@ func Run(ctx *common.Ctx) {
 	}
 	_ = keep
 	ctx.Meta.DistinctNontrivial = len(distinct)
-	ctx.Meta.Rule = "random histories (3..13 steps, thorough 3..14) over 4 variables of list, cons, list*, cdr/rest, nthcdr, member, last, butlast, subseq, copy-list, reverse, append, add, push, pop, (setf car), (setf nth), (setf elt), rplaca, rplacd, nreverse, nconc, sort, remove, delete, remove-if, delete-if (:count, :from-end), mapcar; preceded by 392 enumerated four-step histories of the removing functions (every pattern of removed positions in a list of four x predicate x :count x :from-end, with a tail view before and a write into the result after); fresh integers as elements; after every step each variable's contents and (array identity, offset, capacity) read from the slip.List header; distinct = distinct op sequences"
+	ctx.Meta.Rule = "random histories (3..13 steps, thorough 3..14) over 4 variables of list, cons, list*, cdr/rest, nthcdr, member, last, butlast, subseq, copy-list, reverse, append, add, push, pop, (setf car), (setf nth), (setf elt), rplaca, rplacd, nreverse, nconc, sort, remove, delete, remove-if, delete-if (:count, :from-end), remove-duplicates, delete-duplicates (:from-end, :start, :end), mapcar; lists are built with a repeated element with chance 20% per element; preceded by 392 enumerated four-step histories of the removing functions (every pattern of removed positions in a list of four x predicate x :count x :from-end, with a tail view before and a write into the result after) and 240 enumerated five-step histories of remove-duplicates / delete-duplicates (every pattern of equal elements in a list of four (15) x function x :from-end x window {none, :start 1, :end 3, :start 1 :end 3}, with a tail view before, a write into the result and a write into the argument after); fresh integers as elements; after every step each variable's contents and (array identity, offset, capacity) read from the slip.List header; distinct = distinct op sequences"
 	header := "From C06 Require Import Model Spec Corr.\n"
 	footer := "Definition res := Eval vm_compute in check_all cases.\nPrint res.\nDefinition gcount := Eval vm_compute in guard_count cases.\nPrint gcount.\n"
 	ctx.WriteShards("cases", header, "case", footer, terms, descs, 16)
@@ -489,6 +517,62 @@ func removeFamilyScripts() (out [][][2]string) {
 				{fmt.Sprintf("(setq lv2 (%s %d lv0))", fname, 21+pos), fmt.Sprintf("ORemove %d 0 2", 21+pos)},
 				{"(setf (car lv2) 999)", "OSetcar 2 999"},
 			})
+		}
+	}
+	return
+}
+
+// dupScripts: enumerated histories for remove-duplicates / delete-duplicates. A list of four elements in every
+// pattern of equal elements (the 15 set partitions of four positions, as restricted-growth strings), a tail
+// view of it (nthcdr 1), then the function with and without :from-end t and with each window (none, :start 1,
+// :end 3, :start 1 :end 3) stored in a third variable, then a write into the result and a write into the
+// argument: 15 x 2 x 2 x 4 = 240 histories. Every variable is inspected after every step, so a scan that writes
+// into the array of its argument shows in lv0 / lv1 right after the call, and a result that lies on the
+// argument's array shows in the header and after either write.
+func dupScripts() (out [][][2]string) {
+	var pats [][]int
+	var rec func(p []int, mx int)
+	rec = func(p []int, mx int) {
+		if len(p) == 4 {
+			pats = append(pats, append([]int(nil), p...))
+			return
+		}
+		for v := 0; v <= mx+1; v++ {
+			m := mx
+			if v > m {
+				m = v
+			}
+			rec(append(p, v), m)
+		}
+	}
+	rec(nil, -1)
+	type win struct {
+		opts string
+		s    int
+		e    string
+	}
+	wins := []win{{"", 0, "None"}, {" :start 1", 1, "None"}, {" :end 3", 0, "(Some 3%nat)"}, {" :start 1 :end 3", 1, "(Some 3%nat)"}}
+	for _, fname := range []string{"remove-duplicates", "delete-duplicates"} {
+		for _, fe := range []bool{false, true} {
+			for _, w := range wins {
+				for _, pat := range pats {
+					var xs []string
+					for _, v := range pat {
+						xs = append(xs, fmt.Sprint(31+v))
+					}
+					opts, gfe := w.opts, "false"
+					if fe {
+						opts, gfe = " :from-end t"+opts, "true"
+					}
+					out = append(out, [][2]string{
+						{fmt.Sprintf("(setq lv0 (list %s))", strings.Join(xs, " ")), fmt.Sprintf("OList [%s]%%Z 0", strings.Join(xs, ";"))},
+						{"(setq lv1 (nthcdr 1 lv0))", "ONthcdr 1 0 1"},
+						{fmt.Sprintf("(setq lv2 (%s lv0%s))", fname, opts), fmt.Sprintf("ORemoveDup %s %d%%nat %s 0 2", gfe, w.s, w.e)},
+						{"(setf (car lv2) 999)", "OSetcar 2 999"},
+						{"(setf (nth 1 lv0) 888)", "OSetnth 0 1 888"},
+					})
+				}
+			}
 		}
 	}
 	return
